@@ -2,80 +2,99 @@
 (***************************************************************************)
 (* C07 on recorded executions: descriptor ownership.  The ledger `own`     *)
 (* maps every descriptor number the framework currently owns to its owner  *)
-(* (the connection handle, "ln" for listeners, "p" for epoll / eventfd     *)
-(* descriptors).  It is fed by the verif hooks after every system call     *)
-(* that creates, uses or closes a descriptor, and by the canary goroutines *)
-(* of the harness, which keep opening descriptors so that just-closed      *)
-(* numbers are reused at once (ForeignOpen / ForeignClose).                *)
+(* (<<"c", handle>> for a registered connection, <<"accepted", fd>> for a  *)
+(* socket on its way to a loop, <<"ln", fd>> for listeners, <<"p", fd>>    *)
+(* for epoll / eventfd descriptors).  It is fed by the verif hooks, which  *)
+(* run after every system call that creates, uses or closes a descriptor,  *)
+(* and by the canary goroutines of the harness, which keep opening         *)
+(* descriptors so that just-closed numbers are reused at once.             *)
+(*                                                                         *)
+(* Hooks run after the call, so a close(2) may be logged after the kernel  *)
+(* has already handed the number to somebody else (another loop's accept,  *)
+(* a canary).  `dying` holds such numbers together with the owner whose    *)
+(* close is about to be logged: the next event of that owner about that    *)
+(* number must be the close; a use is a violation.                         *)
 (***************************************************************************)
 EXTENDS TrBase
 
-VARIABLES own,      \* fd -> owner
-          foreign,  \* descriptor numbers currently held by the harness
-          dups,     \* descriptors handed to the user (Dup): never closed by the framework
-          ret       \* Run has returned
-vars == <<l, viols, own, foreign, dups, ret>>
+VARIABLES own, dying, foreign, dups
+vars == <<l, viols, own, dying, foreign, dups>>
 
-Init == /\ l = 1 /\ viols = <<>> /\ own = Empty /\ foreign = {} /\ dups = {} /\ ret = FALSE
+Init == /\ l = 1 /\ viols = <<>> /\ own = Empty /\ dying = Empty /\ foreign = {} /\ dups = {}
         /\ TLCSet(1, 1) /\ TLCSet(2, <<>>)
-Step(o2, f2, d2, r2, vs) == /\ l' = l + 1 /\ own' = o2 /\ foreign' = f2 /\ dups' = d2 /\ ret' = r2 /\ viols' = vs /\ Mark
-Same(vs) == Step(own, foreign, dups, ret, vs)
+Step(o2, dy2, f2, d2, vs) == /\ l' = l + 1 /\ own' = o2 /\ dying' = dy2 /\ foreign' = f2 /\ dups' = d2 /\ viols' = vs /\ Mark
+Same(vs) == Step(own, dying, foreign, dups, vs)
 Del(f, k) == [x \in DOMAIN f \ {k} |-> f[x]]
 
 UseSites == {"el.read", "el.write", "el.writev", "c.write", "c.writev", "c.openwrite", "c.opensend", "c.sendto", "el.flushv"}
 Owner(h) == <<"c", h>>
 
+\* a new descriptor number fd for owner o: if the ledger still has the number, its old owner is closing it
+Create(fd, o, what) ==
+    LET v1 == Check(fd \notin DOMAIN dying /\ fd \notin foreign, "FreshDescriptorIsUnowned", <<what, fd>>, viols) IN
+    IF fd \in DOMAIN own
+    THEN Step(Put(own, fd, o), Put(dying, fd, own[fd]), foreign, dups, v1)
+    ELSE Step(Put(own, fd, o), dying, foreign, dups, v1)
+
+\* owner o closes fd: either the entry it owns, or the one it was about to close when the number was reused
+Close(fd, o, what) ==
+    IF fd \in DOMAIN dying /\ dying[fd] = o
+    THEN Step(own, Del(dying, fd), foreign, dups, viols)
+    ELSE Step(Del(own, fd), dying, foreign, dups,
+              Check(fd \in DOMAIN own /\ own[fd] = o /\ fd \notin foreign /\ fd \notin dups, "CloseOwnedOnce",
+                    <<what, fd, o, Get(own, fd, "none")>>, viols))
+
 Next ==
     /\ More
     /\ LET e == Ev IN
-       CASE e.ev = "Reset" -> Step(Empty, foreign, {}, FALSE, viols)
+       CASE e.ev = "Reset" -> Step(Empty, Empty, foreign, {}, viols)
          \* ---- creation
-         [] e.ev = "Sys" /\ e.site = "acc.accept" /\ e.err = "nil" ->
-              Step(Put(own, e.fd, <<"accepted", e.fd>>), foreign, dups, ret,
-                   Check(e.fd \notin DOMAIN own /\ e.fd \notin foreign, "FreshDescriptorIsUnowned", <<"accept", e.fd>>, viols))
-         [] e.ev = "Sys" /\ e.site \in {"el.dup", "cli.dup"} /\ e.err = "nil" ->
-              Step(Put(own, e.fd, <<"accepted", e.fd>>), foreign, dups, ret,
-                   Check(e.fd \notin DOMAIN own /\ e.fd \notin foreign, "FreshDescriptorIsUnowned", <<"dup", e.fd>>, viols))
-         [] e.ev = "Sys" /\ e.site = "ln.open" /\ e.err = "nil" ->
-              Step(Put(own, e.fd, <<"ln", e.fd>>), foreign, dups, ret,
-                   Check(e.fd \notin DOMAIN own /\ e.fd \notin foreign, "FreshDescriptorIsUnowned", <<"listener", e.fd>>, viols))
+         [] e.ev = "Sys" /\ e.site = "acc.accept" /\ e.err = "nil" -> Create(e.fd, <<"accepted", e.fd>>, "accept")
+         [] e.ev = "Sys" /\ e.site \in {"el.dup", "cli.dup"} /\ e.err = "nil" -> Create(e.fd, <<"accepted", e.fd>>, "dup")
+         [] e.ev = "Sys" /\ e.site = "ln.open" /\ e.err = "nil" -> Create(e.fd, <<"ln", e.fd>>, "listener")
          [] e.ev = "Sys" /\ e.site = "p.open" ->
-              Step(Put(Put(own, e.fd, <<"p", e.fd>>), e.n, <<"p", e.fd>>), foreign, dups, ret,
-                   Check({e.fd, e.n} \cap (DOMAIN own \cup foreign) = {}, "FreshDescriptorIsUnowned", <<"poller", e.fd, e.n>>, viols))
+              \* two descriptors at once: the epoll instance (fd) and its eventfd (n)
+              LET v1 == Check({e.fd, e.n} \cap (DOMAIN dying \cup foreign) = {}, "FreshDescriptorIsUnowned", <<"poller", e.fd, e.n>>, viols)
+                  d1 == IF e.fd \in DOMAIN own THEN Put(dying, e.fd, own[e.fd]) ELSE dying
+                  d2 == IF e.n \in DOMAIN own THEN Put(d1, e.n, own[e.n]) ELSE d1
+              IN Step(Put(Put(own, e.fd, <<"p", e.fd>>), e.n, <<"p", e.fd>>), d2, foreign, dups, v1)
          \* the loop takes the accepted / duplicated descriptor over when it registers the connection
          [] e.ev = "Hook" /\ e.site = "el.registered" ->
-              Step(Put(own, e.a, Owner(e.h)), foreign, dups, ret,
-                   Check(e.a \in DOMAIN own /\ own[e.a][1] = "accepted", "RegisterOwnedDescriptor", <<e.h, e.a>>, viols))
+              Step(Put(own, e.a, Owner(e.h)), dying, foreign, dups,
+                   Check(e.a \in DOMAIN own /\ own[e.a][1] = "accepted", "RegisterOwnedDescriptor", <<e.h, e.a, Get(own, e.a, "none")>>, viols))
          \* ---- use: only descriptors the framework owns, on behalf of their owner
          [] e.ev = "Sys" /\ e.site \in UseSites /\ e.h # 0 ->
-              Same(Check(e.fd \in DOMAIN own /\ own[e.fd] = Owner(e.h), "UseOnlyOwnedFd", <<e.site, e.h, e.fd, Get(own, e.fd, "none")>>, viols))
+              Same(Check(e.fd \in DOMAIN own /\ own[e.fd] = Owner(e.h), "UseOnlyOwnedFd",
+                         <<e.site, e.h, e.fd, Get(own, e.fd, "none"), Get(dying, e.fd, "none")>>, viols))
          \* ---- close: exactly once, by the owner
-         [] e.ev = "Sys" /\ e.site = "el.close" ->
-              Step(Del(own, e.fd), foreign, dups, ret,
-                   Check(e.fd \in DOMAIN own /\ own[e.fd] = Owner(e.h) /\ e.fd \notin foreign /\ e.fd \notin dups,
-                         "CloseOwnedOnce", <<e.h, e.fd, Get(own, e.fd, "none")>>, viols))
-         [] e.ev = "Sys" /\ e.site \in {"el.regclose", "acc.close"} ->
-              Step(Del(own, e.fd), foreign, dups, ret,
-                   Check(e.fd \in DOMAIN own /\ e.fd \notin foreign, "CloseOwnedOnce", <<e.site, e.fd>>, viols))
-         [] e.ev = "Sys" /\ e.site = "ln.close" ->
-              Step(Del(own, e.fd), foreign, dups, ret,
-                   Check(e.fd \in DOMAIN own /\ own[e.fd][1] = "ln" /\ e.fd \notin foreign, "CloseOwnedOnce", <<"listener", e.fd>>, viols))
+         [] e.ev = "Sys" /\ e.site = "el.close" -> Close(e.fd, Owner(e.h), "el.close")
+         [] e.ev = "Sys" /\ e.site \in {"el.regclose", "acc.close"} -> Close(e.fd, <<"accepted", e.fd>>, e.site)
+         [] e.ev = "Sys" /\ e.site = "ln.close" -> Close(e.fd, <<"ln", e.fd>>, "ln.close")
          [] e.ev = "Sys" /\ e.site = "p.close" ->
-              Step(Del(Del(own, e.fd), e.n), foreign, dups, ret,
-                   Check({e.fd, e.n} \subseteq DOMAIN own /\ {e.fd, e.n} \cap foreign = {}, "CloseOwnedOnce", <<"poller", e.fd, e.n>>, viols))
+              LET o == <<"p", e.fd>>
+                  inOwn(x)  == x \in DOMAIN own /\ own[x] = o
+                  inDy(x)   == x \in DOMAIN dying /\ dying[x] = o
+                  v1 == Check((inOwn(e.fd) \/ inDy(e.fd)) /\ (inOwn(e.n) \/ inDy(e.n)), "CloseOwnedOnce", <<"poller", e.fd, e.n>>, viols)
+                  o1 == IF inDy(e.fd) THEN own ELSE Del(own, e.fd)
+                  o2 == IF inDy(e.n) THEN o1 ELSE Del(o1, e.n)
+                  d1 == IF inDy(e.fd) THEN Del(dying, e.fd) ELSE dying
+                  d2 == IF inDy(e.n) THEN Del(d1, e.n) ELSE d1
+              IN Step(o2, d2, foreign, dups, v1)
          \* ---- the rest of the process
          [] e.ev = "ForeignOpen" ->
-              \* the kernel hands out a number the ledger believes owned: the framework closed it behind our back
-              Step(own, foreign \cup {e.fd}, dups, ret,
-                   Check(e.fd \notin DOMAIN own, "ForeignUntouched", <<"kernel reused an owned number", e.fd, Get(own, e.fd, "none")>>, viols))
-         [] e.ev = "ForeignClose" -> Step(own, foreign \ {e.fd}, dups, ret, viols)
+              IF e.fd \in DOMAIN own
+              THEN Step(Del(own, e.fd), Put(dying, e.fd, own[e.fd]), foreign \cup {e.fd}, dups,
+                        Check(e.fd \notin DOMAIN dying, "ForeignUntouched", <<"number reused twice before a close was logged", e.fd>>, viols))
+              ELSE Step(own, dying, foreign \cup {e.fd}, dups, viols)
+         [] e.ev = "ForeignClose" -> Step(own, dying, foreign \ {e.fd}, dups, viols)
          [] e.ev = "ForeignBroken" -> Same(Check(FALSE, "ForeignUntouched", <<"descriptor identity changed", e.fd>>, viols))
-         [] e.ev = "UserDup" -> Step(own, foreign, dups \cup {e.fd}, ret, viols)
-         [] e.ev = "RunRet" -> Step(own, foreign, dups, TRUE, viols)
+         [] e.ev = "UserDup" ->
+              IF e.fd \in DOMAIN own
+              THEN Step(Del(own, e.fd), Put(dying, e.fd, own[e.fd]), foreign, dups \cup {e.fd}, viols)
+              ELSE Step(own, dying, foreign, dups \cup {e.fd}, viols)
+         [] e.ev = "UserDupClose" -> Step(own, dying, foreign, dups \ {e.fd}, Check(e.ok, "DupNeverClosed", e.fd, viols))
          \* ---- after Run returned and the grace period: nothing is owned any more, and /proc agrees
-         [] e.ev = "Grace" ->
-              Same(Check(DOMAIN own = {}, "NoLeakAtStop", DOMAIN own, viols))
-         [] e.ev = "ProcFd" ->
-              Same(Check(e.leaked = 0 /\ e.sockfiles = 0, "NoLeakAtStop", <<"/proc/self/fd", e.leaked, e.sockfiles>>, viols))
+         [] e.ev = "Grace" -> Same(Check(DOMAIN own = {} /\ DOMAIN dying = {}, "NoLeakAtStop", <<DOMAIN own, DOMAIN dying>>, viols))
+         [] e.ev = "ProcFd" -> Same(Check(e.leaked = 0 /\ e.sockfiles = 0, "NoLeakAtStop", <<"/proc/self/fd", e.leaked, e.what, e.sockfiles>>, viols))
          [] OTHER -> Same(viols)
 =============================================================================
